@@ -32,11 +32,11 @@ long verif_gk, verif_gk2, verif_w, verif_w2; int verif_flag;
 _Bool nondet_bool (void); int nondet_int (void); unsigned nondet_uint (void); unsigned char nondet_uchar (void);
 #include "c12_realmem.h"
 static DBusHeader H; int in_len;
+static unsigned char in_buf[VERIF_MEMMAX] __attribute__ ((aligned (8)));   /* the header's block (static: field-sensitive for the model checker; never freed) */
 static struct hdr_ref_fields RF, RF2;
 void harness (void)
 {
-  DBusRealString *hd = (DBusRealString *) &H.data; unsigned char *in_buf; unsigned char old[VERIF_N], exp[VERIF_N]; int i, rhl = 0, rhl2 = 0, want, explen, keep_at, keep_len, other; dbus_bool_t r;
-  in_buf = malloc (VERIF_MEMMAX + VERIF_SLACK); __CPROVER_assume (in_buf != NULL);
+  DBusRealString *hd = (DBusRealString *) &H.data; unsigned char old[VERIF_N], exp[VERIF_N]; int i, rhl = 0, rhl2 = 0, want, explen, keep_at, keep_len, other; dbus_bool_t r;
   for (i = 0; i < VERIF_N; i++) in_buf[i] = nondet_uchar ();
   VERIF_HDR_ASSUME
   hdr_ref_walk (in_buf, in_len, &RF);
